@@ -148,6 +148,8 @@ def run(loader, R, tier):
                     "function")
     R.rule("R42.3", "Expression operators delegate to the matching core "
                     "function")
+    R.rule("R42.5", "index parameters are range-tested at run time before "
+                    "they subscript a container or address a matrix element")
     R.rule("R42.4", "a handle whose type is validated at run time is cast "
                     "only under a dominating test for the target type")
     R.trusted += ["standard-library calls do not throw except at/sto*/"
@@ -344,6 +346,82 @@ def run(loader, R, tier):
                                        seen or "none"))
         sym.visit_guarded(f["body"], cb4)
     R.floor("casts of run-time validated handles", nval, 3)
+
+    # ---------------------------------------------------------------- R42.5
+    # "arbitrary arguments": an index received from C reaches a container
+    # subscript / matrix accessor only under a run-time range test against
+    # the container's size (SYMENGINE_ASSERT is compiled out in release).
+    INT_T = ("unsigned long", "unsigned int", "size_t", "int", "long",
+             "unsigned", "std::size_t")
+    nidx = 0
+    for f in ec:
+        ints = {p["n"] for p in f.get("params", ())
+                if strip_type(p["t"]) in INT_T}
+        if not ints:
+            continue
+
+        def cb5(n, guards, line, f=f, ints=ints):
+            nonlocal nidx
+            idx = None
+            what = None
+            if n.get("k") in ("bin", "op") and n.get("op") == "[]" \
+                    and len(n.get("a", ())) == 2 \
+                    and "->m" in show(n["a"][0]):
+                idx, what = [n["a"][1]], "subscript"
+            elif n.get("k") == "mcall" and n.get("n") in ("get", "set") \
+                    and "->m" in show(n.get("o") or {}) \
+                    and len(n.get("a", ())) >= 2:
+                idx, what = n["a"][:2], "matrix element"
+            elif n.get("k") in ("bin", "op") and n.get("op") == "+" \
+                    and len(n.get("a", ())) == 2 \
+                    and "begin()" in show(n["a"][0]):
+                idx, what = [n["a"][1]], "iterator offset"
+            if not idx:
+                return
+            used = {x["n"] for e in idx for x in walk(e)
+                    if x.get("k") == "ref" and x.get("d") == "param"
+                    and x["n"] in ints}
+            if not used:
+                return
+            nidx += 1
+            key = "%s:%s" % (f["n"], ",".join(sorted(used)))
+            tested = set()
+            for g in sym.flatten_guards(guards):
+                if g[0] == "case":
+                    continue
+                c, pol = g
+                if c.get("k") not in ("bin", "op") or c.get("op") not in (
+                        "<", "<=", ">", ">=") or len(c.get("a", ())) != 2:
+                    continue
+                t = show(c)
+                if not any(b in t for b in ("size()", "nrows()", "ncols()",
+                                            "length()")):
+                    continue
+                for x in walk(c):
+                    if x.get("k") == "ref" and x.get("n") in used:
+                        lhs_is_p = x["n"] in show(c["a"][0])
+                        inside = (c["op"] in ("<", "<=") and lhs_is_p
+                                  and pol) or (
+                            c["op"] in (">", ">=") and lhs_is_p and not pol) \
+                            or (c["op"] in (">", ">=") and not lhs_is_p
+                                and pol) or (
+                            c["op"] in ("<", "<=") and not lhs_is_p
+                            and not pol)
+                        if inside:
+                            tested.add(x["n"])
+            R.instance("R42.5", key, sample={"function": f["n"],
+                                             "access": what,
+                                             "range_tested": sorted(tested)})
+            if used - tested:
+                R.violation(
+                    "R42.5", key, prog.loc(f, n.get("l")),
+                    "%s uses the index parameter(s) %s for a %s without a "
+                    "dominating run-time range test against the container's "
+                    "size: an out-of-range value from the C caller reads or "
+                    "writes outside the container" % (
+                        f["n"], sorted(used - tested), what))
+        sym.visit_guarded(f["body"], cb5)
+    R.floor("indexed accesses driven by C integer parameters", nidx, 5)
 
     # ---------------------------------------------------------------- R42.3
     nops = 0
